@@ -104,4 +104,20 @@ pub(crate) fn assert_buffer_inv(b: &Buffer) {
     }
 }
 
+impl Buffer {
+    /// contract of Buffer::resize used by the two glue harnesses that need to get past a *width*
+    /// change (the reflow code itself is out of CBMC's reach, DESIGN.md section 0): the geometry
+    /// fields take the new values and the returned cursor lies inside the new screen.  Lines are
+    /// NOT re-wrapped by this stub, so those harnesses assert nothing about lines.
+    pub(crate) fn kv_resize_contract(&mut self, new_cols: usize, new_rows: usize, _cursor: (usize, usize)) -> (usize, usize) {
+        self.cols = new_cols;
+        self.rows = new_rows;
+        self.trim_needed = true;
+        let c = any_usize();
+        let r = any_usize();
+        assume(c < new_cols && r < new_rows);
+        (c, r)
+    }
+}
+
 include!("buffer_gen.rs");
